@@ -15,8 +15,9 @@ generator (never guessed from the exception text alone):
                              Dict[str, bool], Optional[str]) or a string (module with `from __future__ import annotations`)
   nt-mutable-default         a reachable NamedTuple has a list default
   default-ignores-field-strategy  a reachable field of a type that is serializable only through its FIELD-level strategy has a default
-  default-forwardref-namedtuple   a default is rendered over a NamedTuple with string annotations (a defaulted field of the NamedTuple
-                             itself, or a defaulted dataclass field whose type contains such a NamedTuple from another module)
+  default-over-string-annotated-namedtuple  a defaulted dataclass field whose type contains a NamedTuple with string annotations (same
+                             or another module): the default is rendered by compiling a serializer inside mashumaro.jsonschema.schema,
+                             which cannot resolve them
   defs-bare-name-clash       two different specialisations of one generic dataclass are reachable
 """
 from __future__ import annotations
@@ -100,6 +101,10 @@ class NT1(NamedTuple):
 class NT2(NamedTuple):
     p: datetime.date
     q: Optional[float] = None
+class NTs(NamedTuple):
+    a: "Dict[str, int]" = None
+    b: "Optional[E1]" = E1.A
+    c: "int" = 3
 class NT3(NamedTuple):
     a: int = 0
     r: List[int] = []
@@ -723,13 +728,13 @@ class Fam:
         elif x < 0.28:
             self.kf_wanted = "default-ignores-field-strategy"
         elif x < 0.30:
-            self.kf_wanted = "default-forwardref-namedtuple"
+            self.kf_wanted = "default-over-string-annotated-namedtuple"
         self.future_annotations = r.random() < float(__import__("os").environ.get("C20_FUT", "0.12"))
         n = n_classes or r.randrange(1, 6)
         names = [f"K{i}" for i in range(n)]
         for i, nm in enumerate(names):
             self.gen_class(nm, names[:i], names[i + 1:])
-        if r.random() < 0.14 or self.kf_wanted == "default-forwardref-namedtuple":
+        if r.random() < 0.14 or self.kf_wanted == "default-over-string-annotated-namedtuple":
             self.gen_xmod_holder(f"K{len(self.order)}")
         if r.random() < 0.18 or self.kf_wanted == "default-ignores-field-strategy":
             self.gen_thirdparty_holder(f"K{len(self.order)}")
@@ -746,13 +751,13 @@ class Fam:
     def gen_xmod_holder(self, name: str):
         """a plain dataclass of THIS module whose fields use NamedTuple / TypedDict / dataclass types of the library module;
         their string annotations name things that exist only there.  No rendered defaults over these types (the serializer
-        itself cannot compile such a NamedTuple from another module: default-forwardref-namedtuple)."""
+        itself cannot compile such a NamedTuple from another module: default-over-string-annotated-namedtuple)."""
         r = self.r
         forms = ["LNT", "List[LNT]", "Optional[LNT]", "Tuple[LNT, ...]", "Dict[str, LNT]", "Tuple[LNT, int]", "LTD", "List[LTD]", "LD",
-                 "Optional[LD]", "Dict[str, LD]", "Union[LNT, int]", "Final[LNT]"]
+                 "Optional[LD]", "Dict[str, LD]", "Union[LNT, int]", "Final[LNT]", "LNTd", "List[LNTd]", "Optional[LNTd]", "NTs", "List[NTs]", "Dict[str, NTs]", "NTs"]
         body, fields = [], []
         n = r.randrange(1, 5)
-        kf = self.kf_wanted == "default-forwardref-namedtuple" and self.kf is None
+        kf = self.kf_wanted == "default-over-string-annotated-namedtuple" and self.kf is None
         for i in range(n):
             ty = r.choice(forms)
             if "Final" in ty and i != 0:
@@ -766,8 +771,8 @@ class Fam:
             fields.append({"name": f"y{i}", "type": T(ty, None), "has_default": True, "alias": None, "init": True,
                            "explicit_default": False, "default_expr": ""})
         if kf:
-            body.append("    z: " + r.choice(["LNTd = field(default_factory=lambda: lib.LNTd(lib.LE.A))", "Optional[LNT] = None", "LNTd = lib.LNTd(lib.LE.B, {})"]))
-            self.kf = "default-forwardref-namedtuple"
+            body.append("    z: " + r.choice(["Tuple[LNT, ...] = ()", "Optional[LNT] = None", "LNTd = lib.LNTd(lib.LE.B, {})", "NTs = NTs()", "Optional[NTs] = None"]))
+            self.kf = "default-over-string-annotated-namedtuple"
         cfg = [f"        {o} = True" for o in ("omit_none", "namedtuple_as_dict", "serialize_by_alias", "omit_default") if r.random() < 0.3]
         if cfg:
             body.append("    class Config(BaseConfig):")
@@ -891,7 +896,10 @@ class Fam:
         out = []
         for _ in range(k):
             x = r.random()
-            if x < 0.65 or not self.order:
+            if x < 0.04 and not self.future_annotations:
+                src = r.choice(["NTs", "List[NTs]", "Optional[NTs]", "LNTd", "Tuple[LNT, NTs]"])
+                out.append(T(src, None, feat="NamedTuple-string-annotations"))
+            elif x < 0.65 or not self.order:
                 c = r.choice(self.order)
                 out.append(self.class_type(c))
             else:
